@@ -222,7 +222,7 @@ def h_addpix(reg, D, uni, cached, depth):
     return h
 
 
-def h_within(reg, D, uni, cached, pts):
+def _within_np():
     import numpy as real_np
 
     class NP(loader.NPProxy):
@@ -239,9 +239,45 @@ def h_within(reg, D, uni, cached, pts):
                 out[...] = False
                 return out
             return real_np.zeros(shape, dtype=dtype, **kw) if dtype is not None else real_np.zeros(shape, **kw)
+    return NP()
+
+
+def centres(D, pts):
+    import healpy
+    import numpy as real_np
+    th, ph = healpy.pix2ang(2 ** D, real_np.array(pts), nest=True)
+    return ph, real_np.pi / 2 - th
+
+
+def h_binop_queried(reg, op, D, uni):
+    """history prefix 'a membership query was answered': the REAL sky_within runs before the operation (whatever it
+    caches), then the operation, then the real sky_within again: the answers must be those of the new set"""
+    def h(c):
+        reg.np = _within_np()
+        a = mk(reg, 'a', D, uni, False)
+        b = mk(reg, 'b', D, uni, False)
+        ea, eb = alpha(a, uni), alpha(b, uni)
+        pts = sorted(ea)[:4 ** (D - 1)][:8]
+        ra, dec = centres(D, pts)
+        a.sky_within(ra, dec, degin=False)
+        if op == 'add_pixels':
+            a.add_pixels(b.pixeldict[D], D)
+            want = {u: z3.Or(ea[u], b.pixeldict[D].bits.get(u, FALSE)) for u in ea}
+        else:
+            getattr(a, op)(b)
+            want = {u: setop(op, ea[u], eb[u]) for u in ea}
+        res = a.sky_within(ra, dec, degin=False)
+        tag = 'sky_within, %s, sky_within[D=%d]' % (op, D)
+        c.oblige(tag + ':membership answers the new set', z3.And([core.lb(res[i]) == want[p] for i, p in enumerate(pts)]))
+        return tag
+    return h
+
+
+def h_within(reg, D, uni, cached, pts):
+    import numpy as real_np
 
     def h(c):
-        reg.np = NP()
+        reg.np = _within_np()
         a = mk(reg, 'a', D, uni, cached)
         ea = alpha(a, uni)
         import healpy
@@ -366,11 +402,22 @@ def replay_case(w):
             else:
                 f = 4 ** (D - od)
                 eb_a = set(u * f + k for u in eb for k in range(f))
+            if w.get('prequery'):
+                import healpy
+                import numpy
+                pts_ = list(range(4 ** D))
+                th_, ph_ = healpy.pix2ang(2 ** D, numpy.array(pts_), nest=True)
+                a.sky_within(ph_, numpy.pi / 2 - th_, degin=False)
             if op == 'union':
                 a.union(b, renorm=w.get('renorm', True))
             else:
                 getattr(a, op)(b)
             want = {'union': ea | eb_a, 'without': ea - eb_a, 'intersect': ea & eb_a, 'symmetric_difference': ea ^ eb_a}[op]
+            if w.get('prequery'):
+                got_ = a.sky_within(ph_, numpy.pi / 2 - th_, degin=False)
+                wrong = [p_ for p_, g_ in zip(pts_, got_) if bool(g_) != (p_ in want)]
+                if wrong:
+                    return True, 'stale-membership', 'sky_within, %s, sky_within: %d of %d pixel centres answered from the old set (a %s, b %s)' % (op, len(wrong), len(pts_), a_lv, b_lv)
             if real_alpha(b) != eb:
                 return True, 'operand-changed', '%s changed its operand' % op
         elif op == 'add_pixels':
@@ -494,6 +541,9 @@ def run(rep):
                 cases.append((h_addpix(reg, D, uni, cA, dep), dict(op='add_pixels', D=D, cachedA=cA, pix_depth=dep)))
             pts = random.Random(rep.seed).sample(range(4 ** (D - 1)), min(4, 4 ** (D - 1)))
             cases.append((h_within(reg, D, uni, cA, pts), dict(op='within', D=D, cachedA=cA)))
+    for D in depths:
+        for op in ('union', 'without', 'intersect', 'symmetric_difference'):
+            cases.append((h_binop_queried(reg, op, D, universe(D)), dict(op=op, D=D, odepth=D, cachedA=False, cachedB=False, renorm=True, prequery=True)))
     for cA in (False, True):
         cases.append((h_nonfinite(reg, cA), dict(op='within', D=1, cachedA=cA, allsky=True)))
     # whole base pixel 0 (its four level-1 children and their descendants): complete sibling groups at level 1
